@@ -63,12 +63,20 @@ ALWAYS = ["dummy", "temp_unique", "remapped", "face", "depth", "time", "lon", "l
 
 @st.composite
 def renaming_for(draw, toks, reserved=()):
+    """toks: {token: namespace}.  Names are unique within a namespace; across namespaces the same name may be (and
+    regularly is) handed out twice: an axis called like one of its dimensions, a ufunc dummy name equal to the name
+    of a real axis (possibly of *another* axis of the same call)."""
     words = harvested()
-    names = list(reserved)  # names the scenario uses as constants (not tokens): never handed out
+    used = {"axis": list(reserved), "ds": [], "dummy": []}
     mapping = {}
-    for t in toks:
-        kind = draw(st.sampled_from(["letter", "letter", "embedded", "case", "harvest", "harvest-suffix", "derived", "always"]))
-        if kind == "letter":
+    for t, space in toks.items():
+        names = used[space]
+        others = [n for sp, lst in used.items() if sp != space for n in lst if n not in names]
+        kind = draw(st.sampled_from(["letter", "letter", "embedded", "case", "harvest", "harvest-suffix", "derived", "always",
+                                     "other-namespace", "other-namespace"]))
+        if kind == "other-namespace" and others:
+            cand = draw(st.sampled_from(others))
+        elif kind == "letter" or kind == "other-namespace":
             cand = draw(st.sampled_from(LETTERS))
         elif kind == "embedded":
             cand = draw(st.sampled_from(EMBEDDED))
@@ -100,7 +108,7 @@ def renaming_for(draw, toks, reserved=()):
             cand = "q" + cand[:10] if ("q" + cand[:10]).isidentifier() else "q"
         k = 0
         final = cand
-        while final in names or final in POSITION_WORDS or final.startswith("_"):
+        while final in names or final in POSITION_WORDS:
             k += 1
             final = (cand[: 12 - len(str(k))] + str(k))
         names.append(final)
@@ -114,7 +122,7 @@ def strategy_impl(draw, tier):
     toks = scen_gen.tokens_of(sc)
     # SGRID axes are always called X, Y, Z by the convention: those are constants of the scenario, not renamable tokens
     reserved = [a for a in ("X", "Y", "Z") if a not in toks] if sc.get("family") == "autoparse" else []
-    return {"scenario": sc, "renaming": draw(renaming_for(toks, reserved))}
+    return {"scenario": sc, "renaming": draw(renaming_for(toks, reserved)), "spaces": toks}
 
 
 def strategy(tier):
@@ -123,8 +131,9 @@ def strategy(tier):
 
 def check(case, ctx):
     sc, ren = case["scenario"], case["renaming"]
+    spaces = case.get("spaces") or scen_gen.tokens_of(sc)
     base = scenario.run_scenario(sc)
-    other = scenario.run_scenario(sc, ren)
+    other = scenario.run_scenario(sc, {"map": ren, "spaces": spaces})
     if len(base) != len(other):
         raise Violation("construction is accepted under one naming and refused under the other", canonical=base[:1], renamed=other[:1], renaming=ren)
     ok_calls = 0
@@ -146,6 +155,12 @@ def check(case, ctx):
         classes.append("ren:substring-of-other")
     if any(v in ("dummy", "temp_unique", "remapped") or v.endswith("dummy") for v in vals):
         classes.append("ren:internal-temporary")
+    if len(set(vals)) < len(vals):
+        classes.append("ren:same-name-in-two-namespaces")
+    dn = [ren[t] for t, sp in spaces.items() if sp == "dummy"]
+    an = [ren[t] for t, sp in spaces.items() if sp == "axis"]
+    if any(d in an for d in dn):
+        classes.append("ren:dummy-equals-real-axis")
     return {"nontrivial": ok_calls > 0, "classes": classes}
 
 
